@@ -157,6 +157,13 @@ func (d *Driver) Listen(signal chan any, done chan any, callback func([]byte)) e
 
 var listenBuf = make([]byte, 2048)
 
+// Listening reports whether the library has called the driver's Listen (Push panics before that).
+func (d *Driver) Listening() bool {
+	d.mu.Lock()
+	defer d.mu.Unlock()
+	return d.listenCB != nil
+}
+
 func (d *Driver) Push(datagram []byte) {
 	d.mu.Lock()
 	cb := d.listenCB
